@@ -434,7 +434,7 @@ def c11(tier, seed):
     obs = []
     for lid in REF_LISTS + (['V3', 'V2', 'P1'] if tier == 'thorough' else []):
         for part in (1, 2, 3, 4):
-            obs.append(ref_ob('C11', lid, part, k0=3))
+            obs.append(ref_ob('C11', lid, part, k0=(2 if part == 1 and tier == 'quick' else 3)))
     # long trivially assignable / swappable runs (4 + 4n bytes, n = 0..15: includes 32 and 64 bytes)
     for part in (2, 4):
         o = ref_ob('C11', 'R1', part, k0=2)
